@@ -8,7 +8,6 @@ import (
 	"strings"
 
 	"voicheck/edt"
-	"voicheck/emod"
 	"voicheck/load"
 	"voicheck/report"
 )
@@ -263,7 +262,7 @@ func init() {
 		}
 		p := c.Prog(id)
 		run.SetConfig(id)
-		m := emod.New(p, nil)
+		m := modFor(p)
 		cfg := &edt.Config{P: p, Mod: m}
 		dt := run.Rule("DT-verify", "every path of verifyWithOptionsNoPanic yields the class the specification predicate gives for the conditions it tested; accepting paths return the specified equation over the specified roles and challenge hash", 400)
 		sp := c01Spec()
